@@ -165,8 +165,9 @@ def rule_pair(ctx):
                 t, pol = e[1], e[2]
                 if isinstance(t, ast.UnaryOp) and isinstance(t.op, ast.Not):
                     t, pol = t.operand, not pol
-                if isinstance(t, ast.Call) and is_method_call(t, "locked") and src(t.func.value) == f"self.{slot}":
-                    locked = pol
+                for t_, pol_ in flatten_test(p, t, pol, g):   # named conditions (`full = ....locked()`; `if full:`) are expanded
+                    if isinstance(t_, ast.Call) and is_method_call(t_, "locked") and src(t_.func.value) == f"self.{slot}":
+                        locked = pol_
             for n in ([e[1]] if e[0] in ("stmt", "branch") else []):
                 if isinstance(n, FuncT):
                     continue
